@@ -34,11 +34,13 @@ def scenarios(ctx):
             for pos in range(len(ws) + 1):
                 keys = R.KEYS[:len(ws) + 1]
                 full = list(ws[:pos]) + [extra] + list(ws[pos:])
-                for last in ("remove", "reweight", "badupsert"):
+                for last in ("remove", "reweight", "badupsert", "rejected"):
                     steps = [{"op": "upsert", "k": k, "v": 0, "w": w} for k, w in zip(keys, full)]
                     steps += [{"op": "pick"} for _ in range(rng.randint(0, 7))]
                     after = list(full)
-                    if last == "badupsert":      # an update with two options, the second invalid: fails after applying the first
+                    if last == "rejected":       # a call that is refused and changes nothing (existing or new server, weight -1)
+                        steps.append({"op": "upsert", "k": rng.choice([keys[pos], "h"]), "v": 0, "w": -1, "w2": -1})
+                    elif last == "badupsert":      # an update with two options, the second invalid: fails after applying the first
                         nw = rng.choice([1, 2, 4, 2 * extra, ws[0] + 1])
                         steps.append({"op": "upsert", "k": keys[pos], "v": 0, "w": nw, "w2": -1})
                         after[pos] = nw
